@@ -414,6 +414,14 @@ def _spec_call(self, sp, name, args, ctx):
     return None
 
 
+def _b_hmac_compare_digest(self, ex, p, node, a, b):
+    """hmac.compare_digest(a, b): equality of two byte strings (constant-time in CPython)"""
+    if not isinstance(a, VBytes) or not isinstance(b, VBytes):
+        return [Res(p, exc=VExc('TypeError'))]
+    return [Res(p, VBool(a.z == b.z))]
+
+
+Lib.b_hmac_compare_digest = _b_hmac_compare_digest
 Lib.spec_call = _spec_call
 Lib._value_attr0 = Lib.value_attr
 Lib.value_attr = _lib_value_attr
